@@ -148,3 +148,33 @@ let z45 : pystr := [47;115;51;46;120;109;108]%N in
 let z46 : pystr := [47;99;51]%N in
 let z47 : pystr := [47;101;51]%N in
 (DeviceDef {| h_type := z0; h_friendly := z1; h_manufacturer := z2; h_manufacturer_url := (Some z3); h_model_desc := (Some z4); h_model_name := [77]%N; h_model_number := (Some [49]%N); h_model_url := (Some [47;109]%N); h_serial := (Some z5); h_udn := z6; h_upc := (Some z7); h_presentation := (Some z8) |} [{| ic_mime := z9; ic_w := (48)%Z; ic_h := (48)%Z; ic_d := (24)%Z; ic_url := z10 |}; {| ic_mime := z11; ic_w := (120)%Z; ic_h := (120)%Z; ic_d := (32)%Z; ic_url := z12 |}] [{| s_type := z13; s_id := z14; s_scpd := z15; s_control := z16; s_event := z17; s_vars := [{| sd_name := [65]%N; sd_type := z19; sd_attr := false; sd_evented := true; sd_default := (Some [53]%N); sd_range := (Some ((Some [48]%N), (Some z18), (Some [49]%N))); sd_allowed := None |}; {| sd_name := [66]%N; sd_type := z22; sd_attr := true; sd_evented := false; sd_default := (Some z21); sd_range := None; sd_allowed := (Some [z20; z21]) |}; {| sd_name := [67]%N; sd_type := z23; sd_attr := true; sd_evented := false; sd_default := (Some [49]%N); sd_range := None; sd_allowed := None |}; {| sd_name := [70]%N; sd_type := [114;52]%N; sd_attr := true; sd_evented := false; sd_default := nS; sd_range := (Some ((Some z24), nS, nS)); sd_allowed := None |}]; s_actions := [{| ad_name := z26; ad_args := [{| ag_name := z25; ag_in := true; ag_retval := false; ag_rsv := [65]%N |}] |}; {| ad_name := z29; ad_args := [{| ag_name := z27; ag_in := false; ag_retval := true; ag_rsv := [66]%N |}; {| ag_name := z28; ag_in := false; ag_retval := false; ag_rsv := [67]%N |}] |}]; s_corrupt := CNone |}] [(DeviceDef {| h_type := z30; h_friendly := [101;49]%N; h_manufacturer := z2; h_manufacturer_url := nS; h_model_desc := nS; h_model_name := [77]%N; h_model_number := nS; h_model_url := nS; h_serial := nS; h_udn := z31; h_upc := nS; h_presentation := nS |} (@nil icon_def) [{| s_type := z32; s_id := z33; s_scpd := z34; s_control := z35; s_event := z36; s_vars := [{| sd_name := [84]%N; sd_type := z37; sd_attr := true; sd_evented := false; sd_default := (Some z38); sd_range := None; sd_allowed := None |}]; s_actions := (@nil action_def); s_corrupt := CNoTable |}] [(DeviceDef {| h_type := z39; h_friendly := [102;49]%N; h_manufacturer := z2; h_manufacturer_url := nS; h_model_desc := nS; h_model_name := [77]%N; h_model_number := nS; h_model_url := nS; h_serial := nS; h_udn := z40; h_upc := nS; h_presentation := nS |} (@nil icon_def) (@nil service_def) [(DeviceDef {| h_type := z41; h_friendly := [103;49]%N; h_manufacturer := z2; h_manufacturer_url := nS; h_model_desc := nS; h_model_name := [77]%N; h_model_number := nS; h_model_url := nS; h_serial := nS; h_udn := z42; h_upc := nS; h_presentation := nS |} (@nil icon_def) [{| s_type := z43; s_id := z44; s_scpd := z45; s_control := z46; s_event := z47; s_vars := (@nil sv_def); s_actions := (@nil action_def); s_corrupt := CNone |}] (@nil device_def))])])])).
+
+(* the data type names the statement counts: all 26 of UDA / STATE_VARIABLE_TYPE_MAPPING on the unchanged tree *)
+Definition uda_types : list pystr := [
+  [117;105;49]%N (* ui1 *);
+  [117;105;50]%N (* ui2 *);
+  [117;105;52]%N (* ui4 *);
+  [117;105;56]%N (* ui8 *);
+  [105;49]%N (* i1 *);
+  [105;50]%N (* i2 *);
+  [105;52]%N (* i4 *);
+  [105;56]%N (* i8 *);
+  [105;110;116]%N (* int *);
+  [114;52]%N (* r4 *);
+  [114;56]%N (* r8 *);
+  [110;117;109;98;101;114]%N (* number *);
+  [102;105;120;101;100;46;49;52;46;52]%N (* fixed.14.4 *);
+  [102;108;111;97;116]%N (* float *);
+  [99;104;97;114]%N (* char *);
+  [115;116;114;105;110;103]%N (* string *);
+  [98;105;110;46;98;97;115;101;54;52]%N (* bin.base64 *);
+  [98;105;110;46;104;101;120]%N (* bin.hex *);
+  [117;114;105]%N (* uri *);
+  [117;117;105;100]%N (* uuid *);
+  [98;111;111;108;101;97;110]%N (* boolean *);
+  [100;97;116;101]%N (* date *);
+  [100;97;116;101;84;105;109;101]%N (* dateTime *);
+  [100;97;116;101;84;105;109;101;46;116;122]%N (* dateTime.tz *);
+  [116;105;109;101]%N (* time *);
+  [116;105;109;101;46;116;122]%N (* time.tz *)
+].
